@@ -100,17 +100,21 @@ DelSliceCase(k, n, a, b, st) ==
   IN Base("DelSlice", k, n) @@
      [a |-> a, b |-> b, st |-> st, cls |-> SliceClass(n, a, b, st),
       out |-> out, rk |-> "none", val |-> <<>>, post |-> IF out = "ok" THEN DelSliceD(x, a, b, st) ELSE x, fresh |-> FALSE]
+\* The immutable types refuse item assignment and deletion with TypeError whatever the index. For an
+\* index beyond the machine word the reference implementation converts the index first and reports
+\* IndexError; the sequence model does not order the two checks, so both are allowed there.
+FarAlt(k, i) == IF ~Mutable(k) /\ IsBig(i) THEN "IndexError" ELSE ""
 SetItemCase(k, n, i) ==
   LET x == Content(k, n)
       out == IF ~Mutable(k) \/ i = BadV THEN "TypeError" ELSE IF IndexOk(i, n) THEN "ok" ELSE "IndexError"
   IN Base("SetItem", k, n) @@
-     [i |-> i, item |-> 77, cls |-> IndexClass(i), out |-> out, rk |-> "none", val |-> <<>>,
+     [i |-> i, item |-> 77, cls |-> IndexClass(i), out |-> out, alt |-> FarAlt(k, i), rk |-> "none", val |-> <<>>,
       post |-> IF out = "ok" THEN SetItemD(x, i, 77) ELSE x, fresh |-> FALSE]
 DelItemCase(k, n, i) ==
   LET x == Content(k, n)
       out == IF ~Mutable(k) \/ i = BadV THEN "TypeError" ELSE IF IndexOk(i, n) THEN "ok" ELSE "IndexError"
   IN Base("DelItem", k, n) @@
-     [i |-> i, cls |-> IndexClass(i), out |-> out, rk |-> "none", val |-> <<>>,
+     [i |-> i, cls |-> IndexClass(i), out |-> out, alt |-> FarAlt(k, i), rk |-> "none", val |-> <<>>,
       post |-> IF out = "ok" THEN DelItemD(x, i) ELSE x, fresh |-> FALSE]
 
 -----------------------------------------------------------------------------
